@@ -142,3 +142,62 @@ pub fn pf64(s: &str) -> f64 {
 pub fn ef64(x: f64) -> String {
     format!("0x{:016x}", x.to_bits())
 }
+
+/// The per-scale float / parts constructors (`from_<scale>_seconds`, `from_<scale>_days`, `from_tai_parts`,
+/// `from_utc_duration`): an epoch of that scale whose elapsed time is the float count of the unit converted by C18's rule
+/// (nearest double of the product, truncated toward zero, saturating). kind: 0 = seconds, 1 = days.
+/// Returns false when the scale has no such constructor.
+pub fn j_scale_float_ctor(check: &str, ts: TimeScale, kind: usize, x: f64, out: &mut crate::report::Local) -> bool {
+    use crate::oracle::dur::*;
+    use hifitime::Epoch;
+    let f: Option<fn(f64) -> Epoch> = match (ts, kind) {
+        (TimeScale::TAI, 0) => Some(Epoch::from_tai_seconds),
+        (TimeScale::TAI, 1) => Some(Epoch::from_tai_days),
+        (TimeScale::UTC, 0) => Some(Epoch::from_utc_seconds),
+        (TimeScale::UTC, 1) => Some(Epoch::from_utc_days),
+        (TimeScale::TT, 0) => Some(Epoch::from_tt_seconds),
+        (TimeScale::ET, 0) => Some(Epoch::from_et_seconds),
+        (TimeScale::TDB, 0) => Some(Epoch::from_tdb_seconds),
+        (TimeScale::GPST, 0) => Some(Epoch::from_gpst_seconds),
+        (TimeScale::GPST, 1) => Some(Epoch::from_gpst_days),
+        (TimeScale::GST, 0) => Some(Epoch::from_gst_seconds),
+        (TimeScale::GST, 1) => Some(Epoch::from_gst_days),
+        (TimeScale::BDT, 0) => Some(Epoch::from_bdt_seconds),
+        (TimeScale::BDT, 1) => Some(Epoch::from_bdt_days),
+        (TimeScale::QZSST, 0) => Some(Epoch::from_qzsst_seconds),
+        (TimeScale::QZSST, 1) => Some(Epoch::from_qzsst_days),
+        _ => None,
+    };
+    let Some(f) = f else { return false };
+    let unit = if kind == 0 { Unit::Second } else { Unit::Day };
+    let args = vec![scale_name(ts).to_string(), kind.to_string(), ef64(x)];
+    let want = super::c18::unit_float_model(x, unit).expect("finite input");
+    match crate::report::guard(|| f(x)) {
+        Ok(e) => {
+            if e.time_scale == ts && canonical(e.duration) && alpha(e.duration) == want {
+                let nt = x < 0.0 || x.fract() != 0.0 || want == DMAX || want == DMIN;
+                out.ok(1, nt, kind as u64 * 8 + (x < 0.0) as u64 + 2 * (x.fract() != 0.0) as u64 + 4 * (want == DMAX || want == DMIN) as u64);
+                if out.want_sample(nt) {
+                    out.sample(check, args, format!("{} in {}", describe(want), scale_name(ts)), nt);
+                }
+            } else if e.time_scale != ts {
+                out.viol(check, format!("wrong-scale,{}", ["seconds", "days"][kind]), args, scale_name(ts).to_string(), scale_name(e.time_scale).to_string());
+            } else {
+                out.viol(check, format!("wrong-count,{},diff={}", ["seconds", "days"][kind], diffclass(alpha(e.duration), want)), args, describe(want), show(e.duration));
+            }
+        }
+        Err(p) => out.viol(check, format!("panic:{}", p.class()), args, "no panic".into(), format!("{} {}", p.loc, p.msg)),
+    }
+    true
+}
+
+/// the float lattice for the per-scale constructors: exact integers and dyadic fractions of both signs, decimals whose
+/// double lies below / above them, values whose product leaves the 2^53 ns and the i64 ns ranges, and the far range
+pub fn ctor_floats() -> Vec<f64> {
+    let mut v: Vec<f64> = vec![];
+    for m in [0.0f64, 1.0, 2.0, 59.0, 60.0, 86_399.0, 86_400.0, 15_020.0, 36_525.0, 51_544.5, 0.5, 0.25, 1.5, 1234.125, 0.1, 4.1, 0.57, 1e-9, 1e-10, 2.5e-9, 9_007_199.254_740_993, 9_223_372_036.0, 9_223_372_037.0, 4_611_686_019.0, 3_155_760_000.0, 3_155_716_800.0, 630_720_000.5, 1e11, 1e13, 1e14, 1.0e15, 1.034e14, 1.0341e14, 2e14, 1e30, f64::MAX, f64::MIN_POSITIVE, 5e-324] {
+        v.push(m);
+        v.push(-m);
+    }
+    v
+}
